@@ -32,6 +32,9 @@ inductive LEv where
   | effect (p : Nat)
   | finish (p : Nat) (rc : Nat)
   | kill (p : Nat)
+  /-- the bind did not complete before its timer (`bind_timeout_ms`; possible when the lock host is
+  given by name): `ServerError::BindTimeout`, fatal like a refused bind, whoever holds or not -/
+  | bindTimeout (p : Nat)
 deriving Repr, DecidableEq
 
 def setProc (ps : List LProc) (p : Nat) (f : LProc → LProc) : List LProc :=
@@ -61,6 +64,10 @@ def lstep (s : LockSt) : LEv → LockSt
   | .kill p =>
     if pcOf s p = some .holding then { procs := setProc s.procs p (fun x => { x with pc := .dead }), lock := none }
     else if pcOf s p = some .start then { s with procs := setProc s.procs p (fun x => { x with pc := .dead }) }
+    else s
+  | .bindTimeout p =>
+    if pcOf s p = some .start then
+      { s with procs := setProc s.procs p (fun x => { x with pc := .exited lockErrorRc, lockFailed := true }) }
     else s
 
 def lockInit (n : Nat) : LockSt :=
